@@ -582,6 +582,7 @@ def transpose_extents_rule(chk, db):
 
 META_EXTRA = "DYNSLOT (dynamic-extent slots selected by the type's own pattern; bulk copies only for rank_dynamic() values; two-arity constructors establish the arity); TRANSP / TRANSP-EXT (transposed stride and extents evaluated per case); PARAM."
 META = (META[0] + " " + META_EXTRA, META[1])
+META = (META[0] + " SIB; MAPPED (every element access takes its offset from the mapping); DYNSLOT (c) no direct read of another extents object's slot array.", META[1])
 
 
 def run(chk, tier):
